@@ -106,3 +106,17 @@ func verifHandoff() {
 		VerifHandoff()
 	}
 }
+
+// VerifSignedVotes returns the stored signed votes of a stage (what the tally is made of).
+func (s *Service) VerifSignedVotes(stage Subround) map[ed25519.PublicKeyBytes]SignedVote {
+	out := map[ed25519.PublicKeyBytes]SignedVote{}
+	src := s.prevotes
+	if stage == precommit {
+		src = s.precommits
+	}
+	src.Range(func(k, v interface{}) bool {
+		out[k.(ed25519.PublicKeyBytes)] = *v.(*SignedVote)
+		return true
+	})
+	return out
+}
